@@ -174,3 +174,140 @@ class Snark(Contract):
         d["S.outputs_tied"] = And(*[v.a == c.eva(o) for v, o in zip(pubs_after, self._secret)]) if self._secret and d["T.outputs_count"] else True
         d["T.nothing_else_public"] = (g.npub == len(numeric) + len(self._secret))
         return d
+
+
+_NATIVE = r'''
+import sys, json, atexit
+sys.path.insert(0, sys.argv[1])
+import pysnark.snarkjsbackend as be
+import pysnark.runtime as rt
+import pysnark.fixedpoint as fx
+import pysnark.boolean as bo
+atexit._clear()
+req = json.load(open(sys.argv[2]))
+fx.resolution = req["res"]
+R = 1 << req["res"]
+ARGS = eval(req["args"]); RET = eval(req["ret"])
+ints = iter(req["ints"]); outs = iter(req["outs"])
+
+def build(s, leaf):
+    if isinstance(s, list): return [build(x, leaf) for x in s]
+    if isinstance(s, tuple): return tuple(build(x, leaf) for x in s)
+    if isinstance(s, dict): return {k: build(v, leaf) for k, v in s.items()}
+    return leaf(s)
+
+def leaves(s):
+    if isinstance(s, (list, tuple)): return [y for x in s for y in leaves(x)]
+    if isinstance(s, dict): return [y for k in s for y in leaves(s[k])]
+    return [s]
+
+def same_shape(a, b):
+    if isinstance(a, (list, tuple)): return type(a) is type(b) and len(a) == len(b) and all(same_shape(x, y) for x, y in zip(a, b))
+    if isinstance(a, dict): return isinstance(b, dict) and list(a) == list(b) and all(same_shape(a[k], b[k]) for k in a)
+    return not isinstance(b, (list, tuple, dict))
+
+args = build(ARGS, lambda k: next(ints) if k == "i" else (1.5 if k == "f" else "text"))
+state = {}
+def body(*a, **k):
+    state["pub_at_entry"] = list(be.pubvals); state["priv_at_entry"] = len(be.privvals)
+    state["received"] = a
+    rt.PrivVal(7)
+    secret = []
+    def leaf(kind):
+        if kind == "L": x = rt.PrivVal(next(outs))
+        elif kind == "F": x = fx.LinCombFxp(rt.PrivVal(next(outs)), False)
+        elif kind == "B": x = bo.LinCombBool(rt.PrivVal(next(outs) % 2), False)
+        elif kind == "k": return 43
+        else: return None
+        secret.append(x); return x
+    r = build(RET, leaf)
+    state["ret"] = r; state["secret"] = secret
+    state["pub_at_exit"] = len(be.pubvals)
+    return r
+out = {}
+try:
+    r = rt.snark(body)(*args, **({"flag": 1} if req.get("kwargs") else {}))
+    out["outcome"] = "return"
+except BaseException as e:
+    out["outcome"] = "raise"; out["exception"] = type(e).__name__; out["message"] = str(e)[:200]
+    r = None
+numeric = [x for x in leaves(list(args)) if isinstance(x, (int, float)) and not isinstance(x, str)]
+want = [x if isinstance(x, int) else int(x * R) for x in numeric]
+ok = {}
+if out["outcome"] == "return":
+    ok["T.inputs_count"] = len(state["pub_at_entry"]) == len(numeric) and state["priv_at_entry"] == 0
+    ok["V.inputs_in_order"] = [v % be.snarkjsp for v in state["pub_at_entry"]] == [v % be.snarkjsp for v in want]
+    got = leaves(list(state["received"]))
+    ok["V.body_receives_same_shape"] = same_shape(list(args), list(state["received"]))
+    num_got = [y for x, y in zip(leaves(list(args)), got) if isinstance(x, (int, float)) and not isinstance(x, str)]
+    def val(y):
+        return y.value if hasattr(y, "value") else (y.lc.value if hasattr(y, "lc") else None)
+    ok["V.body_receives_argument_values"] = len(num_got) == len(want) and all(val(y) == w for y, w in zip(num_got, want))
+    ok["V.non_numeric_passed_through"] = all(y is x for x, y in zip(leaves(list(args)), got) if isinstance(x, str))
+    new_pub = be.pubvals[state["pub_at_exit"]:]
+    ok["T.outputs_count"] = len(new_pub) == len(state["secret"])
+    ok["V.outputs_in_order"] = [v % be.snarkjsp for v in new_pub] == [val(o) % be.snarkjsp for o in state["secret"]]
+    ok["V.returns_same_shape"] = same_shape(state["ret"], r)
+    if ok["V.returns_same_shape"]:
+        cl = []
+        for o, i in zip(leaves(r), leaves(state["ret"])):
+            if isinstance(i, fx.LinCombFxp): cl.append(isinstance(o, float) and o == i.lc.value / R)
+            elif hasattr(i, "lc"): cl.append(isinstance(o, int) and o == val(i))
+            else: cl.append(o is i or o == i)
+        ok["V.returns_plain_values"] = all(cl)
+    ok["T.nothing_else_public"] = len(be.pubvals) == len(numeric) + len(state["secret"])
+    bad = []
+    def ev(lc):
+        return sum(c * (1 if k == 0 else (be.pubvals[k - 1] if k > 0 else be.privvals[-k - 1])) for k, c in lc.lc.items())
+    for i, (A, B, C) in enumerate(be.constraints):
+        if (ev(A) * ev(B) - ev(C)) % be.snarkjsp: bad.append(i)
+    ok["C.sat_h"] = not bad
+else:
+    ok["R.raise"] = out["exception"]
+out["clauses"] = ok
+out["public_values"] = [str(v) for v in be.pubvals]
+json.dump(out, open(sys.argv[3], "w"), indent=1, default=str)
+'''
+
+
+def _snark_replay(self, ob, cfg):
+    """Runs the real runtime.snark around a recording body under CPython and re-evaluates the failed clause in the
+    property's own terms (public values before / after the body, what the body received, what came back)."""
+    import json, os, subprocess, tempfile, shutil
+    from pyvc.replay import REPO
+    model = ob.get("model") or {}
+    tmp = tempfile.mkdtemp(prefix="pyvc_snark_")
+    try:
+        ints = [int(v) for k, v in sorted(((k, v) for k, v in model.items() if k.startswith("k_arg")), key=lambda kv: int(kv[0][5:].split("!")[0]))]
+        ints += [3, 5, 9, 11, 13, 17]
+        outs = [int(v) for k, v in sorted(((k, v) for k, v in model.items() if k.startswith("s_out")), key=lambda kv: int(kv[0][5:].split("!")[0]))]
+        outs += [2, 1, 6, 4, 8, 10]
+        req = dict(args=cfg["args"], ret=cfg["ret"], res=cfg["res"], kwargs=bool(cfg.get("kwargs")), ints=ints, outs=outs)
+        json.dump(req, open(os.path.join(tmp, "req.json"), "w"))
+        open(os.path.join(tmp, "run.py"), "w").write(_NATIVE)
+        env = dict(os.environ)
+        env.pop("PYSNARK_BACKEND", None)
+        p = subprocess.run(["python3-vt", os.path.join(tmp, "run.py"), REPO, os.path.join(tmp, "req.json"), os.path.join(tmp, "out.json")],
+                           cwd=tmp, env=env, stdout=subprocess.PIPE, stderr=subprocess.STDOUT, timeout=120)
+        if not os.path.exists(os.path.join(tmp, "out.json")):
+            return dict(confirmed=False, replay_error=p.stdout.decode(errors="replace")[-800:])
+        out = json.load(open(os.path.join(tmp, "out.json")))
+        clause = ob["name"].split("[")[0]
+        confirmed = False
+        if clause.startswith("R."):
+            want_raise = bool(cfg.get("kwargs"))
+            confirmed = (out["outcome"] == "raise") != want_raise
+        elif clause.endswith("@raise"):
+            confirmed = out["outcome"] == "raise" and len(out.get("public_values", [])) > 0
+        elif clause in out.get("clauses", {}):
+            confirmed = out["clauses"][clause] is False
+        elif out["outcome"] == "raise" and not cfg.get("kwargs"):
+            confirmed = True        # the wrapper failed on arguments it must accept
+        out["confirmed"] = bool(confirmed)
+        out["inputs"] = req
+        return out
+    finally:
+        shutil.rmtree(tmp, ignore_errors=True)
+
+
+Snark.native_replay = _snark_replay
